@@ -172,9 +172,17 @@ class Obj:
         from elftools.elf.elffile import ELFFile
         # histories also run on a minimal read/seek/tell stream (seek() returns None); the fresh-object truth always comes from BytesIO
         self.ef = ELFFile(streams.Minimal(data) if minimal else io.BytesIO(data))
-        self.di = self.ef.get_dwarf_info() if self.ef.has_dwarf_info() else None
+        # the DWARF view is made when the first query needs it: fetching it looks sections up by name, and a fresh object that has
+        # already done so cannot serve as the truth for what a query answers on a file object nobody has touched yet (round 10)
+        self._di = False
         self.gens = []          # suspended generators: [kind, arg, pos, iterator]
         self.kept = {}          # section objects a caller would keep around (their lazy caches are part of the history)
+
+    @property
+    def di(self):
+        if self._di is False:
+            self._di = self.ef.get_dwarf_info() if self.ef.has_dwarf_info() else None
+        return self._di
 
     def section(self, i):
         if i not in self.kept:
@@ -183,9 +191,9 @@ class Obj:
 
     def streams(self):
         out = [self.ef.stream]
-        if self.di is not None:
+        if self._di:
             for attr in ('debug_info_sec', 'debug_abbrev_sec', 'debug_str_sec', 'debug_line_sec', 'debug_frame_sec', 'eh_frame_sec', 'debug_types_sec'):
-                s = getattr(self.di, attr)
+                s = getattr(self._di, attr)
                 if s is not None:
                     out.append(s.stream)
         return out
@@ -199,6 +207,9 @@ def discover(fx):
     a = {'nsec': o.ef.num_sections(), 'nseg': o.ef.num_segments(), 'cus': [], 'dies': [], 'refdies': [], 'sigs': [], 'names': [], 'nulls': []}
     a['names'] = [s.name for s in o.ef.iter_sections()][:12] + ['.absent']
     a['symtabs'] = [i for i, s in enumerate(o.ef.iter_sections()) if type(s).__name__ == 'SymbolTableSection']
+    # .dynamic sections with the number of entries their extent holds (entries behind the first DT_NULL included)
+    a['dynsecs'] = [(i, s['sh_size'] // s['sh_entsize']) for i, s in enumerate(o.ef.iter_sections())
+                    if type(s).__name__ == 'DynamicSection' and s['sh_entsize'] and s['sh_size'] // s['sh_entsize']]
     a['symnames'] = []
     for i in a['symtabs'][:1]:
         a['symnames'] = sorted({s.name for s in o.ef.get_section(i).iter_symbols()})[:8] + ['nosuchsym']
@@ -308,6 +319,11 @@ def gen_available(a, kind):
     return bool(a['dies'])
 
 
+ELF_ONLY_OPS = ('num_sections', 'get_section', 'get_section_typed', 'section_by_name', 'section_data', 'get_segment', 'notes', 'get_symbol',
+                'symbol_by_name', 'dynsec_get_tag', 'dynsec_num_tags', 'dyn_tags', 'dyn_num_symbols', 'dyn_symbol_by_name', 'dyn_symbols',
+                'bad_get_section', 'bad_get_segment', 'bad_get_symbol')
+
+
 def apply(o, a, op):
     """execute one query op on object o -> canonical result (never raises)"""
     try:
@@ -319,12 +335,30 @@ def apply(o, a, op):
 def _apply(o, a, op):
     k = op[0]
     x = op[1] if len(op) > 1 else 0
-    ef, di = o.ef, o.di
+    ef = o.ef
+    di = None if k in ELF_ONLY_OPS else o.di
     if k == 'num_sections':
         return ef.num_sections()
     if k == 'get_section':
         s = ef.get_section(x % a['nsec'])
         return (s.name, dump.canon(dict(s.header)), type(s).__name__)
+    if k == 'get_section_typed':
+        # the optional type argument of get_section: the section when its type is among the given ones, the library's error otherwise -
+        # whatever was asked before
+        n = x % a['nsec']
+        types = [('SHT_PROGBITS',), ('SHT_SYMTAB', 'SHT_DYNSYM'), ('SHT_NOBITS', 'SHT_NULL'), ('SHT_DYNAMIC',), ('SHT_STRTAB', 'SHT_NOTE', 'SHT_PROGBITS'),
+                 ('SHT_RELA', 'SHT_REL'), ()][(x // 7) % 7]
+        s = ef.get_section(n, types) if (x // 49) % 2 else ef.get_section(n, type=types)
+        return (s.name, type(s).__name__)
+    if k in ('dynsec_get_tag', 'dynsec_num_tags'):
+        # a .dynamic section fetched from the file object for this one question (not a kept section object): single entries by number,
+        # also those behind the first DT_NULL, and the count up to it
+        i, cap = a['dynsecs'][x % len(a['dynsecs'])]
+        sec = ef.get_section(i)
+        if k == 'dynsec_num_tags':
+            return sec.num_tags()
+        t = sec.get_tag((x // 3) % cap)
+        return (t.entry.d_tag, t.entry.d_val)
     if k == 'section_by_name':
         nm = a['names'][x % len(a['names'])]
         s = ef.get_section_by_name(nm)
@@ -483,8 +517,10 @@ def op_available(a, op):
         return True
     if k == 'bad_get_symbol':
         return bool(a['symtabs'])
-    if k in ('num_sections', 'get_section', 'section_by_name', 'section_data', 'notes'):
+    if k in ('num_sections', 'get_section', 'section_by_name', 'section_data', 'notes', 'get_section_typed'):
         return a['nsec'] > 0
+    if k in ('dynsec_get_tag', 'dynsec_num_tags'):
+        return bool(a.get('dynsecs'))
     if k == 'get_segment':
         return a['nseg'] > 0
     if k in ('get_symbol', 'symbol_by_name'):
@@ -669,7 +705,7 @@ def abstract_state(o):
     """hash input describing the cache state (read-only access to private attributes).  The attribute names are those of the pinned
     tree; on a tree that keeps its caches differently the description falls back to the shape of whatever private attributes exist - a
     coarser abstraction explores fewer states, it never changes a verdict."""
-    ef, di = o.ef, o.di
+    ef, di = o.ef, (o._di or None)      # (looking at the state must not create the DWARF view)
     try:
         parts = [ef._section_name_map is None, ef.stream.tell()]
         if di is not None:
@@ -796,7 +832,8 @@ def run_case(ctx, case):
 QUERY_OPS = ['num_sections', 'get_section', 'section_by_name', 'section_data', 'get_segment', 'notes', 'get_symbol', 'symbol_by_name', 'get_CU_at',
              'get_CU_containing', 'top_DIE', 'refaddr', 'parent', 'children_all', 'siblings_all', 'from_attribute', 'iter_DIEs_all', 'iter_CUs_all',
              'by_sig8', 'iter_TUs_all', 'line_program', 'cfi', 'eh_cfi', 'aranges', 'pubnames', 'cfi_kept', 'dyn_tags', 'dyn_num_symbols',
-             'dyn_symbol_by_name', 'dyn_symbols', 'loclists_iter', 'rnglists_iter', 'null_refaddr', 'null_parent']
+             'dyn_symbol_by_name', 'dyn_symbols', 'loclists_iter', 'rnglists_iter', 'null_refaddr', 'null_parent', 'get_section_typed',
+             'dynsec_get_tag', 'dynsec_num_tags']
 
 CORPUS = ['test/testfiles_for_unittests/lib_versioned64.so.1.elf', 'test/testfiles_for_unittests/dwarf_test_versions_mix.elf',
           'test/testfiles_for_unittests/simple_gcc.elf.arm', 'test/testfiles_for_readelf/dwarf_v5ops.so.elf',
